@@ -68,6 +68,22 @@ def containsEncodedSlashL : List Char → Bool
 
 def containsEncodedSlash (s : String) : Bool := containsEncodedSlashL s.toList
 
+/-- octets that may stand in the path of a request as they are (everything `url.EscapedPath` accepts) -/
+def pathOctetAllowed (c : Char) : Bool :=
+  c.isAlphanum || "-_.~!$&'()*+,;=:@/[]%".toList.contains c
+
+def hexDigitUpper (n : Nat) : Char := if n < 10 then Char.ofNat (48 + n) else Char.ofNat (55 + n)
+
+/-- `escapedPath` of `internal/handler/requestcontext/extract_url.go`: the path as received, with the octets that may
+    not stand in a path percent-encoded (upper-case hex); every escape of the client is kept as written -/
+def receivedPathL : List Char → List Char
+  | [] => []
+  | c :: rest =>
+    if pathOctetAllowed c then c :: receivedPathL rest
+    else '%' :: hexDigitUpper (c.toNat / 16 % 16) :: hexDigitUpper (c.toNat % 16) :: receivedPathL rest
+
+def receivedPath (s : String) : String := String.ofList (receivedPathL s.toList)
+
 inductive SlashHandling where
   | off | on | noDecode
 deriving DecidableEq, Repr
